@@ -353,10 +353,13 @@ class Harness(object):
         the call that also runs the iteration).  The oracles are told first, as for the equivalent Set* call: the new
         setting is in force for the evaluations of this very iteration."""
         kw = {}
+        self._sticky_undo = []
         for key, what, cls in (('constraint_kw', 'constraint', SimConstraint), ('penalty_kw', 'penalty', SimPenalty)):
             if key in op:
                 arg = op[key]
                 peer = cls(arg) if arg else None
+                old_peer = self.constraint if what == 'constraint' else self.penalty
+                self._sticky_undo.append((what, old_peer))
                 if what == 'constraint': self.constraint = peer
                 else: self.penalty = peer
                 self.settings_epoch += 1
@@ -387,6 +390,21 @@ class Harness(object):
             self.started = True
             self.real_steps += self.run.counts['_Step.done'] - real0
             executed = self.steps_executed - before
+            if i == 0 and sticky and not (self.run.counts['_Step.done'] - real0):
+                # Step() found the solver already stopped and returned at once: keyword settings are only processed by an
+                # iteration that runs, so nothing was installed -- tell the oracles the previous setting is still in force
+                for what, old_peer in getattr(self, '_sticky_undo', []):
+                    if what == 'constraint': self.constraint = old_peer
+                    else: self.penalty = old_peer
+                    synth = {'op': 'set', 'what': what, 'arg': (old_peer.spec if old_peer is not None else None), 'via': 'step_keyword_not_processed'}
+                    self.run.observing = True
+                    try:
+                        for o in self.oracles:
+                            g = getattr(o, 'after_op', None)
+                            if g: g(self, synth, {})
+                    finally:
+                        self.run.observing = False
+                self.run.probe('step_keyword.not_processed')
             rets.append(observe.canon_msg(msg))
             for o in self.oracles:
                 g = getattr(o, 'after_step_call', None)
